@@ -361,9 +361,13 @@ pub fn set_global_default(dispatcher: Dispatch) -> Result<(), SetGlobalDefaultEr
         #[cfg(not(feature = "alloc"))]
         let collector = dispatcher.collector;
 
+        #[cfg(tokio_rs_tracing_verif)]
+        crate::verif::yield_point("dispatch::set_global_default::before_write");
         unsafe {
             GLOBAL_DISPATCH = Dispatch { collector };
         }
+        #[cfg(tokio_rs_tracing_verif)]
+        crate::verif::yield_point("dispatch::set_global_default::before_initialized");
         GLOBAL_INIT.store(INITIALIZED, Ordering::SeqCst);
         EXISTS.store(true, Ordering::Release);
         Ok(())
@@ -422,6 +426,8 @@ pub fn get_default<T, F>(mut f: F) -> T
 where
     F: FnMut(&Dispatch) -> T,
 {
+    #[cfg(tokio_rs_tracing_verif)]
+    crate::verif::yield_point("dispatch::get_default::before_scoped_count");
     if SCOPED_COUNT.load(Ordering::Acquire) == 0 {
         // fast path if no scoped dispatcher has been set; just use the global
         // default.
@@ -510,6 +516,8 @@ where
 
 #[inline(always)]
 pub(crate) fn get_global() -> &'static Dispatch {
+    #[cfg(tokio_rs_tracing_verif)]
+    crate::verif::yield_point("dispatch::get_global::before_init_load");
     if GLOBAL_INIT.load(Ordering::Acquire) != INITIALIZED {
         return &NONE;
     }
@@ -561,6 +569,8 @@ impl Dispatch {
         let me = Dispatch {
             collector: Kind::Scoped(arc),
         };
+        #[cfg(tokio_rs_tracing_verif)]
+        crate::verif::yield_point("dispatch::new::before_register");
         crate::callsite::register_dispatch(&me);
         me
     }
@@ -1029,6 +1039,8 @@ impl State {
             .ok()
             .flatten();
         EXISTS.store(true, Ordering::Release);
+        #[cfg(tokio_rs_tracing_verif)]
+        crate::verif::yield_point("dispatch::set_default::before_scoped_count");
         SCOPED_COUNT.fetch_add(1, Ordering::Release);
         DefaultGuard(prior)
     }
